@@ -217,6 +217,8 @@ def m_bytearray(eng, x=0, *a):
 
 
 def m_bytes(eng, x=b"", *a):
+    if type(x).__name__ == "SymBlob":
+        return x
     if isinstance(x, int):
         return bytes(x)
     if isinstance(x, (list, tuple)):
@@ -545,6 +547,15 @@ def m_unpack(eng, fmt, buf):
         if not any(is_sym(b) for b in part):
             out.append(struct.unpack("<" + ch, bytes(part))[0])
             continue
+        if ch in STRUCT_INT and not any(isinstance(b, SymBV) for b in part):
+            # bytes that are mathematical integers (0..255 by construction): linear reassembly
+            tot = 0
+            for i, b in enumerate(part):
+                tot = eng.op("Add", tot, eng.op("Mult", b, 256 ** i))
+            if STRUCT_INT[ch][1] and eng.truth(eng.cmp("GtE", tot, 2 ** (8 * n - 1))):
+                tot = eng.op("Sub", tot, 2 ** (8 * n))
+            out.append(tot)
+            continue
         bv = z3.Concat(*[_byte_term(b) for b in reversed(part)]) if n > 1 else _byte_term(part[0])
         if ch == "d":
             sbv = z3.simplify(bv)
@@ -620,10 +631,20 @@ def m_pack(eng, fmt, *vals):
             if isinstance(v, SymBV):
                 w = 8 * n
                 t = v.ext(w) if v.w <= w else z3.Extract(w - 1, 0, v.t)
+                for i in range(n):
+                    out.append(mkbv(z3.Extract(8 * i + 7, 8 * i, t), False))
             else:
-                t = z3.Int2BV(zint(v), 8 * n)
-            for i in range(n):
-                out.append(mkbv(z3.Extract(8 * i + 7, 8 * i, t), False))
+                # mathematical integer: bytes by linear div/mod (keeps the query in LIA)
+                u = v
+                if signed and eng.truth(eng.cmp("Lt", v, 0)):
+                    u = eng.op("Add", v, 2 ** (8 * n))
+                rest = u
+                for i in range(n):
+                    if i == n - 1:
+                        out.append(rest)
+                    else:
+                        out.append(eng.op("Mod", rest, 256))
+                        rest = eng.op("FloorDiv", rest, 256)
         else:
             out.extend(struct.pack("<" + ch, v))
     return mkbytes(out)
@@ -722,6 +743,11 @@ def a_nondet_str(eng, tag, n, lo=48, hi=57):
     v = SymStr(cs) if cs else ""
     eng.register_input(name, "nd", v)
     return v
+
+
+def a_opaque_bytes(eng, tag, length):
+    from .blob import Rope, SymBlob
+    return SymBlob([Rope(str(tag), 0, length)])
 
 
 def a_cover(eng, label):
@@ -858,7 +884,7 @@ def install(eng):
         struct.unpack: m_unpack, struct.pack: m_pack,
         math.floor: m_floor, math.ceil: m_ceil, math.trunc: m_trunc,
         api.assume: a_assume, api.nondet_bool: a_nondet_bool, api.nondet_int: a_nondet_int,
-        api.nondet_bv: a_nondet_bv, api.nondet_bytes: a_nondet_bytes, api.nondet_str: a_nondet_str, api.cover: a_cover,
+        api.nondet_bv: a_nondet_bv, api.nondet_bytes: a_nondet_bytes, api.nondet_str: a_nondet_str, api.opaque_bytes: a_opaque_bytes, api.cover: a_cover,
         api.is_symbolic: a_is_symbolic, api.concretize: a_concretize,
     })
     for name in ("log", "log10", "log2", "pow", "sqrt", "exp", "isnan", "isinf", "isfinite", "modf", "copysign", "fabs"):
